@@ -508,12 +508,12 @@ def lex : Nat → List Char → Option (List Tok)
         | _ :: rest' => (lex fuel rest').map (fun ts => .str (String.ofList body) :: ts)
         | [] => none
     else if c.isDigit then
+      -- an integer literal, possibly with a type suffix (`quote!` writes a `usize` as `1usize`)
       let ds := (c :: cs).takeWhile Char.isDigit
-      let rest := (c :: cs).dropWhile Char.isDigit
+      let rest := ((c :: cs).dropWhile Char.isDigit).dropWhile isIdentCont
       match rest with
-      | r :: _ => if isIdentCont r || r == '.' then none
-                  else (lex fuel rest).map (fun ts => .nat (ds.foldl (fun n d => n * 10 + (d.toNat - '0'.toNat)) 0) :: ts)
-      | [] => some [.nat (ds.foldl (fun n d => n * 10 + (d.toNat - '0'.toNat)) 0)]
+      | '.' :: _ => none
+      | _ => (lex fuel rest).map (fun ts => .nat (ds.foldl (fun n d => n * 10 + (d.toNat - '0'.toNat)) 0) :: ts)
     else if isIdentStart c then
       let w := (c :: cs).takeWhile isIdentCont
       let rest := (c :: cs).dropWhile isIdentCont
